@@ -113,7 +113,7 @@ std::string runCase(const vio::Case &c) {
   const char *binName = "x_out.bin";
   unlink(binName);
   // ---------------------------------------------------------------- compile
-  std::string errtype, err;
+  std::string errtype, err, errclass;
   bool located = false;
   // C11: unrelated compilations earlier in the same process (fields pre0, pre1, ...); with the field `reuse` they and
   // the compilation under test go through one Driver object (its lexer and parser are members that live on).
@@ -143,13 +143,13 @@ std::string runCase(const vio::Case &c) {
         xcmp::Driver driver(sink);
         driver.run(xcmp::DriverAction::EMIT_BINARY, c.str("src"), false, binName);
       }
-    } catch (const hexutil::Error &e) { errtype = "Error"; err = e.what(); located = e.hasLocation(); }
+    } catch (const hexutil::Error &e) { errtype = "Error"; err = e.what(); located = e.hasLocation(); errclass = vio::demangled(e); }
     catch (const std::exception &e) { errtype = "std::exception"; err = e.what(); }
     catch (const LayoutRunaway &) { errtype = "layout-runaway"; err = "layout did not converge"; }
     catch (...) { errtype = "non-std-exception"; err = "?"; }
   }
   if (!errtype.empty()) {
-    j.boolean("ok", false).str("errtype", errtype).str("err", err).boolean("located", located)
+    j.boolean("ok", false).str("errtype", errtype).str("err", err).boolean("located", located).str("errclass", errclass)
      .boolean("wrote", access(binName, F_OK) == 0);
     return j.done();
   }
